@@ -13,7 +13,7 @@ RULE = ("Hypothesis-generated (scenario, schedule) cases (all connection kinds, 
         "at or before it, and that no producer steps/produces for a time the consumer has already begun. "
         "non-trivial = >= 2 connected simulators and (>= 2 replies pending at once or a non-FIFO release); "
         "distinct = distinct case hashes"
-        "; in addition four long runs (until 80 / 120 / 1100) under FIFO, LIFO and a starved simulator, and the "
+        "; in addition six long runs (until 80 / 120 / 1100, strides of hundreds, 24 simulators) under FIFO, LIFO and a starved simulator, and the "
         "extreme policies (LIFO, steps first, get_data first, each simulator starved) before every schedule enumeration")
 ASSUMPTIONS = [
     "scripted simulators; reference delays computed from the case's group tree (DESIGN 2.3)",
